@@ -212,13 +212,13 @@ func (d *dumper) args(es []data.GetValue) string {
 func (d *dumper) block(ss []data.GetValue) string {
 	var sb strings.Builder
 	sb.WriteString("{")
-	for i, s := range ss {
-		sb.WriteString(d.stmt(s) + ";")
-		// `continue n` is parsed as `continue; n;`: what follows a Continue in the same
-		// statement list can never run, the model drops it
-		if _, ok := s.(*node.ContinueStatement); ok && i+1 < len(ss) {
+	for i := 0; i < len(ss); i++ {
+		sb.WriteString(d.stmt(ss[i]) + ";")
+		// `continue n` is parsed as `continue; n;`: the literal statement behind a Continue can
+		// never run, the model does not have it
+		if _, ok := ss[i].(*node.ContinueStatement); ok && i+1 < len(ss) {
 			if _, lit := ss[i+1].(*node.IntLiteral); lit {
-				break
+				i++
 			}
 		}
 	}
